@@ -26,6 +26,8 @@ pub enum Guard {
     TxLen(usize),
     /// enabled once the flag is set (by the scenario)
     Flag(Arc<AtomicBool>),
+    /// enabled once the code under test has shut down its sending direction towards this endpoint
+    Shutdown,
 }
 
 #[derive(Clone, Debug)]
@@ -178,6 +180,7 @@ fn guard_ok(g: &Guard, s: &EpState) -> bool {
         Guard::TxContains(b) => s.tx.windows(b.len().max(1)).any(|w| w == &b[..]),
         Guard::TxLen(n) => s.tx.len() >= *n,
         Guard::Flag(f) => f.load(Ordering::SeqCst),
+        Guard::Shutdown => s.shutdown,
     }
 }
 
